@@ -76,9 +76,16 @@ def _leaf_shortcuts(run, P):
         for r in ast.walk(f.node):
             if isinstance(r, ast.Return) and isinstance(r.value, ast.Name) and r.value.id == urecs_:
                 conds = path_conditions(f.node, r)
-                known_fixed = any((t == f"{expr_}.name in self.lhs_mapping_candidates" and pol is False)
-                                  or (t == f"{expr_}.name not in self.lhs_mapping_candidates" and pol is True)
-                                  for t, pol in conds)
+                import re as _re
+                known_fixed = False
+                for t, pol in conds:
+                    if "lhs_mapping_candidates" not in t:
+                        continue
+                    m_ = _re.match(r"^[\w.]+ (not )?in self\.lhs_mapping_candidates$", t)
+                    if m_ is None:
+                        raise AnalysisError(f"{f.qualname}: test on the candidates of another form: {t[:60]}")
+                    if (m_.group(1) and pol is True) or (not m_.group(1) and pol is False):
+                        known_fixed = True
                 n += 1
                 run.ob("C17.identity", f, r, known_fixed or name != "map_variable",
                        construct=f"{U.name}.{name}: the records are handed back unchanged only for a "
